@@ -11,7 +11,7 @@ Definition wfl := wf_list max_array_len max_bulk_len.
 
 Lemma limits :
   max_array_len = 1048576%Z /\ max_bulk_len = 536870912%Z /\ 32 <= session_dec_buf /\ 32 <= client_dec_buf /\
-  32 <= default_buffer_size /\ (min_itoa <= max_itoa)%Z.
+  32 <= default_buffer_size /\ (min_itoa <= max_itoa)%Z /\ 8 <= max_array_depth <= 1024.
 Proof. vm_compute. repeat split; discriminate. Qed.
 
 Lemma Hmm : (min_itoa <= max_itoa)%Z. Proof. apply limits. Qed.
@@ -36,28 +36,28 @@ Proof.
 Qed.
 
 Lemma chunking B szs endv data : 1 <= B ->
-  decode_all_chunked max_array_len max_bulk_len B szs endv data = decode_all_flat max_array_len max_bulk_len B endv data.
+  decode_all_chunked max_array_len max_bulk_len max_array_depth B szs endv data = decode_all_flat max_array_len max_bulk_len max_array_depth B endv data.
 Proof. apply chunking_independent. Qed.
 
-Lemma roundtrip_gen B v fuel rest e : 22 <= B -> wfv v -> (depth v < fuel)%nat ->
-  decode frd (flat_ops B) max_array_len max_bulk_len fuel (fs (encode T v ++ rest) e) = (Ok v, fs rest e).
-Proof. intros HB Hw Hd. exact (roundtrip B HB max_array_len max_bulk_len min_itoa max_itoa Hmm Hb0 Hb1 Ha0 Ha1 v Hw fuel rest e Hd). Qed.
+Lemma roundtrip_gen B v fuel d rest e : 22 <= B -> wfv v -> (depth v < fuel)%nat -> d + N.of_nat (depth v) <= max_array_depth ->
+  decode frd (flat_ops B) max_array_len max_bulk_len max_array_depth fuel d (fs (encode T v ++ rest) e) = (Ok v, fs rest e).
+Proof. intros HB Hw Hd Hdm. exact (roundtrip B HB max_array_len max_bulk_len max_array_depth min_itoa max_itoa Hmm Hb0 Hb1 Ha0 Ha1 v Hw fuel d rest e Hd Hdm). Qed.
 
-Lemma canonical_gen B v fuel rest e v' rest' : 22 <= B -> wfv v -> (depth v < fuel)%nat ->
-  decode frd (flat_ops B) max_array_len max_bulk_len fuel (fs (encode T v ++ rest) e) = (Ok v', fs rest' e) ->
+Lemma canonical_gen B v fuel d rest e v' rest' : 22 <= B -> wfv v -> (depth v < fuel)%nat -> d + N.of_nat (depth v) <= max_array_depth ->
+  decode frd (flat_ops B) max_array_len max_bulk_len max_array_depth fuel d (fs (encode T v ++ rest) e) = (Ok v', fs rest' e) ->
   encode T v' ++ rest' = encode T v ++ rest.
 Proof.
-  intros HB Hw Hd H. rewrite (roundtrip_gen B v fuel rest e HB Hw Hd) in H.
+  intros HB Hw Hd Hdm H. rewrite (roundtrip_gen B v fuel d rest e HB Hw Hd Hdm) in H.
   inversion H. reflexivity.
 Qed.
 
-Lemma concat_gen B vs szs : 22 <= B -> wfl vs ->
-  decode_all_chunked max_array_len max_bulk_len B szs EOF (encode_list T vs) = (vs, EOF).
-Proof. intros HB Hw. exact (concat_any_chunking B HB max_array_len max_bulk_len min_itoa max_itoa Hmm Hb0 Hb1 Ha0 Ha1 vs szs Hw). Qed.
+Lemma concat_gen B vs szs : 22 <= B -> wfl vs -> N.of_nat (depth_list vs) <= max_array_depth ->
+  decode_all_chunked max_array_len max_bulk_len max_array_depth B szs EOF (encode_list T vs) = (vs, EOF).
+Proof. intros HB Hw Hd. exact (concat_any_chunking B HB max_array_len max_bulk_len max_array_depth min_itoa max_itoa Hmm Hb0 Hb1 Ha0 Ha1 vs szs Hw Hd). Qed.
 
-Lemma inline_gen B ws c w0 rest e fuel :
+Lemma inline_gen B ws c w0 rest e fuel d :
   Forall word_ok ws -> join_sp ws = c :: w0 -> is_type_byte c = false -> (0 < fuel)%nat ->
-  decode frd (flat_ops B) max_array_len max_bulk_len fuel (fs (join_sp ws ++ [CR; LF] ++ rest) e)
+  decode frd (flat_ops B) max_array_len max_bulk_len max_array_depth fuel d (fs (join_sp ws ++ [CR; LF] ++ rest) e)
   = (Ok (Arr (Some (map (fun w => Bulk (Some w)) ws))), fs rest e).
 Proof. apply inline_decodes. Qed.
 
@@ -74,5 +74,5 @@ Definition sample : resp :=
 Lemma sample_wf : wfv sample.
 Proof. unfold wfv. cbn. repeat split; try (vm_compute; discriminate); try (vm_compute; reflexivity); intros H; cbn in H; intuition discriminate. Qed.
 Lemma sample_roundtrip :
-  decode_all_chunked max_array_len max_bulk_len 32 [1;2;3;1;1;1;7] EOF (encode T sample ++ encode T sample) = ([sample; sample], EOF).
+  decode_all_chunked max_array_len max_bulk_len max_array_depth 32 [1;2;3;1;1;1;7] EOF (encode T sample ++ encode T sample) = ([sample; sample], EOF).
 Proof. vm_compute. reflexivity. Qed.
